@@ -29,6 +29,7 @@ type randParams struct {
 	PSync     float64 `json:"pSync"`
 	PNoPath   float64 `json:"pNoPath"`
 	PDup      float64 `json:"pDup"`
+	PReject   float64 `json:"pReject"` // a delivery is first attempted with one change the validator refuses
 	History   int     `json:"history"` // history trees per observer at the end
 }
 
@@ -48,6 +49,7 @@ type traceEvent struct {
 	Snap   int         `json:"snap"`
 	IsSnap bool        `json:"isSnap"`
 	Batch  []int       `json:"batch"`
+	Bad    int         `json:"bad"`
 	Heads  []int       `json:"heads"`
 	Path   []int       `json:"path"`
 	St     *traceState `json:"st,omitempty"`
@@ -68,6 +70,8 @@ type randCase struct {
 	events []traceEvent
 	log    []string
 	nViol  int
+	rng    *rand.Rand
+	p      randParams
 }
 
 func (c *randCase) idOf(k int) string { return fmt.Sprintf("%s%02d", c.prefix, k) }
@@ -103,6 +107,10 @@ func (c *randCase) stateOf(o *observation) *traceState {
 
 // after runs the oracles after a step of replica `name` and logs the event.
 func (c *randCase) after(name string, ev traceEvent, res objecttree.AddResult, isReopen bool) bool {
+	return c.afterKind(name, ev, res, isReopen, false)
+}
+
+func (c *randCase) afterKind(name string, ev traceEvent, res objecttree.AddResult, isReopen, isReject bool) bool {
 	r := c.reps[name]
 	o, err := observe(r)
 	if err != nil {
@@ -115,13 +123,15 @@ func (c *randCase) after(name string, ev traceEvent, res objecttree.AddResult, i
 			c.viol("reopen-differs-from-live", fmt.Sprintf("live tree: root %s heads %v presents %v; reopened: root %s heads %v presents %v",
 				lv.Root, lv.Heads, lv.Iter, o.Root, o.Heads, o.Iter))
 		}
+	} else if isReject {
+		o.Mode = c.last[name].Mode
 	} else {
 		o.Mode = modeName(res.Mode)
 	}
 	for _, v := range checkObservation(c.idOf(0), o) {
 		c.viol(v.key, v.desc)
 	}
-	for _, v := range checkStep(c.last[name], o, !isReopen) {
+	for _, v := range checkStep(c.last[name], o, !isReopen && !isReject) {
 		c.viol(v.key, v.desc)
 	}
 	c.last[name] = o
@@ -160,6 +170,54 @@ func (c *randCase) deliver(dst, src string, batch []int, withPath bool) bool {
 	for i, k := range batch {
 		raws[i] = c.rawOf(k)
 	}
+	// transient refusal first: the same payload with one change the receiver's validator refuses
+	// (a copy citing an acl record the receiver does not know); if that change attaches the whole
+	// payload is rolled back (event Reject), otherwise it is an ordinary delivery
+	if c.p.PReject > 0 && c.rng.Float64() < c.p.PReject {
+		have := setOf(c.last[dst].Store)
+		var cand []int
+		for _, k := range batch {
+			if !have[c.idOf(k)] {
+				cand = append(cand, k)
+			}
+		}
+		if len(cand) > 0 {
+			bad := cand[c.rng.Intn(len(cand))]
+			braws := make([]*treechangeproto.RawTreeChangeWithId, len(batch))
+			for i, k := range batch {
+				braws[i] = raws[i]
+				if k == bad {
+					u := c.uni[k]
+					braws[i] = c.e.raw(chSpec{Id: c.idOf(k), Prev: intsToIds(c.idOf, u.Prev), Snap: c.idOf(u.Snap), IsSnap: u.IsSnap, AclHead: unknownAclHead})
+				}
+			}
+			var (
+				res  objecttree.AddResult
+				aerr error
+			)
+			_, pnc, hng := runGuarded(func() error {
+				res, aerr = c.reps[dst].addRaw(heads, path, braws...)
+				return nil
+			})
+			if hng || pnc != nil {
+				c.viol("hang-or-panic-in-rejected-Deliver", fmt.Sprintf("panic=%v hang=%v", pnc, hng))
+				return false
+			}
+			if aerr != nil {
+				c.log = append(c.log, fmt.Sprintf("%s.DeliverRejected(%v bad=%d heads=%v path=%v)", dst, batch, bad, c.nums(heads), c.nums(path)))
+				if !c.afterKind(dst, traceEvent{Ev: "Reject", Batch: batch, Bad: bad, Heads: c.nums(heads), Path: c.nums(path)}, res, false, true) {
+					return false
+				}
+				c.rep.AddExtra("rejected_deliveries", 1)
+			} else {
+				// the refused copy did not attach (parents missing): an ordinary delivery of the rest
+				c.log = append(c.log, fmt.Sprintf("%s.Deliver(%v heads=%v path=%v)", dst, batch, c.nums(heads), c.nums(path)))
+				if !c.after(dst, traceEvent{Ev: "Deliver", Batch: batch, Heads: c.nums(heads), Path: c.nums(path)}, res, false) {
+					return false
+				}
+			}
+		}
+	}
 	c.log = append(c.log, fmt.Sprintf("%s.Deliver(%v heads=%v path=%v)", dst, batch, c.nums(heads), c.nums(path)))
 	var res objecttree.AddResult
 	if !c.guarded("Deliver", func() error {
@@ -175,7 +233,7 @@ func (c *randCase) deliver(dst, src string, batch []int, withPath bool) bool {
 func runRandomOrderCase(e *env, rep *vfutil.Report, rng *rand.Rand, seed int64, p randParams, tw *vfutil.TraceWriter) {
 	useMockBuilder()
 	c := &randCase{e: e, rep: rep, prefix: e.nextPrefix(), reps: map[string]*replica{}, last: map[string]*observation{},
-		uni: map[int]uniCh{0: {Id: 0, Snap: 0, IsSnap: true}}, robj: replayObj{Kind: "random-order", Seed: seed, Params: p}}
+		uni: map[int]uniCh{0: {Id: 0, Snap: 0, IsSnap: true}}, robj: replayObj{Kind: "random-order", Seed: seed, Params: p}, rng: rng, p: p}
 	root := e.rootRaw(c.idOf(0), 0)
 	var writers, observers, all []string
 	for i := 0; i < p.Writers; i++ {
@@ -186,7 +244,7 @@ func runRandomOrderCase(e *env, rep *vfutil.Report, rng *rand.Rand, seed int64, 
 	}
 	all = append(append(all, writers...), observers...)
 	for i, n := range all {
-		r, err := e.newReplica(i, root, objecttree.BuildTestableTree)
+		r, err := e.newReplica(i, root, mockBuild)
 		if err != nil {
 			e.t.Fatalf("replica: %v", err)
 		}
@@ -379,7 +437,7 @@ func TestRandomOrder(t *testing.T) {
 		seed := base*1000003 + int64(i)
 		prng := rand.New(rand.NewSource(seed ^ 0x5eed)) // parameters; the case itself is a function of (seed, params)
 		p := randParams{Writers: 2 + prng.Intn(2), Observers: 3 + prng.Intn(2), Changes: 6 + prng.Intn(maxChanges-5),
-			PSnap: []float64{0.1, 0.2, 0.35}[prng.Intn(3)], PSync: 0.3, PNoPath: 0.2, PDup: 0.2, History: 3}
+			PSnap: []float64{0.1, 0.2, 0.35}[prng.Intn(3)], PSync: 0.3, PNoPath: 0.2, PDup: 0.2, PReject: 0.3, History: 3}
 		runRandomOrderCase(e, rep, rand.New(rand.NewSource(seed)), seed, p, tw)
 		rep.Case(fmt.Sprintf("w%d-o%d-c%d-s%.2f", p.Writers, p.Observers, p.Changes, p.PSnap))
 		rep.AddReplayed(1)
